@@ -205,6 +205,32 @@ def r20_4(ctx):
 
 def r20_5(ctx):
     ctx.rule("R20.5", "use_theme context manager: __enter__ pushes once, __exit__ pops on every path and returns falsy, and the `inherit` option accepted by Console.use_theme reaches ThemeStack.push_theme through every hop")
+    cm_mod = ctx.repo.mod("console")
+    if "ThemeContext" not in cm_mod.classes:
+        # alternative form: Console.use_theme as a @contextmanager generator
+        use = ctx.repo.cls("console:Console").method("use_theme")
+        if use is None or not any("contextmanager" in d for d in use.decorators):
+            raise AnchorVanished("neither console:ThemeContext nor a @contextmanager Console.use_theme found")
+        g = cfgmod.build(use.node)
+        pushes = [nd for nd in g.stmt_nodes() if nd.kind == "stmt" and any(isinstance(x, ast.Call) and norm(x.func).endswith("push_theme") for x in ast.walk(nd.stmt))]
+        pops = {nd.id for nd in g.stmt_nodes() if nd.kind == "stmt" and any(isinstance(x, ast.Call) and norm(x.func).endswith("pop_theme") for x in ast.walk(nd.stmt))}
+        yields = [nd for nd in g.stmt_nodes() if nd.kind == "stmt" and any(isinstance(x, ast.Yield) for x in ast.walk(nd.stmt))]
+        ctx.check(len(pushes) == 1 and len(yields) == 1, use.fq, "push; yield", use.where, "pushes once, yields once", "use_theme does not push exactly once and yield exactly once")
+        for y in yields:
+            w = g.must_pass(y.id, pops, {g.exit, g.rexit}) if pops else [y.id]
+            ctx.check(w is None, use.fq, "yield ... pop_theme()", f"{use.module.relpath}:{y.lineno}", "the theme is popped on every exit from the block, including by exception (try/finally around the yield)",
+                      "use_theme pops the theme only when the with-block finishes normally: an exception thrown into the generator at the yield skips pop_theme(), so the temporary theme stays on the stack and later lookups are not restored",
+                      g.describe_path(w) if w else None)
+        for pnode in pushes:
+            c = [x for x in ast.walk(pnode.stmt) if isinstance(x, ast.Call) and norm(x.func).endswith("push_theme")][0]
+            v = kwarg(c, "inherit")
+            ctx.check(v is not None and norm(v) == "inherit", use.fq, short(c), f"{use.module.relpath}:{c.lineno}", "inherit forwarded to push_theme", "use_theme does not forward `inherit` to push_theme")
+        cons = ctx.repo.cls("console:Console")
+        cpush = cons.method("push_theme")
+        calls = [x for x in walk_local(cpush.node) if isinstance(x, ast.Call) and norm(x.func).endswith(".push_theme")]
+        v = kwarg(calls[0], "inherit") if calls else None
+        ctx.check(v is not None and norm(v) == "inherit", cpush.fq, short(calls[0]) if calls else "?", cpush.where, "Console.push_theme forwards inherit to the stack", "Console.push_theme does not forward `inherit` to ThemeStack.push_theme")
+        return
     tc = ctx.repo.cls("console:ThemeContext")
     en, ex, init = tc.method("__enter__"), tc.method("__exit__"), tc.method("__init__")
     if not (en and ex and init):
